@@ -223,6 +223,10 @@ def run(ctx):
     ctx.ob("M-FMT", "format_atom used exactly for the atom variants", users == atoms, "used for %s" % sorted(users ^ atoms))
     callers = sorted({b["name"] for p, b in f.mir.items() if mir.cfg(b).calls("get_atom_name_unchecked")})
     ctx.ob("M-FMT", "callers of get_atom_name_unchecked", set(callers) <= {"format_atom", "get_atom_name", "format_term"}, "%s" % callers)
+    # the parsers store names and components through the two term mutators and rely on them storing verbatim / completely
+    # (seeds c12-e: push_components dropped placeholders, c12-f: set_atom_name trimmed underscores)
+    import c17 as _c17
+    _c17.rule_K_MUTATOR(ctx)
     ctx.undecided = ["identifier well-formedness of parsed names beyond non-emptiness (value-dependent)",
                      "formatting totality relies on the reviewed table for its index sites and on std formatting being total"]
     ctx.assumptions = ["axioms of C04 (usize +, finite iterators, unlisted external callees total)"]
